@@ -353,6 +353,52 @@ def g4(prog, rep, tier):
                       "%s: the compiler could place such instructions in code that runs before the CPU check" % isa, function=unit, construct="flags")
     if n < 70:
         rep.defer_broken("G4: fewer than 70 Makefile rules")
+    g4_siblings(prog, rep)
+    if g4_exclusive(prog, rep) < 1:
+        rep.defer_broken("G4: no accelerated case found in SHA256_Transform")
+
+
+def g4_exclusive(prog, rep):
+    """One transform per block: in SHA256_Transform a taken accelerated case ends the function.  After the call of an
+    accelerated transform no path to the exit executes anything else -- a `break` for the `return` lets the portable rounds run
+    on the state the accelerated code has already advanced (the block is absorbed twice; on a host where that case is never
+    selected neither the suite nor the self-test can see it)."""
+    if "alg/sha256.c" not in prog.units:
+        return 0
+    u = prog.unit("alg/sha256.c")
+    f = u.func("SHA256_Transform")
+    if f is None:
+        raise cdb.AnalysisBroken("anchor missing: SHA256_Transform")
+    acc = accelerated_functions(prog)
+    n = 0
+    for c in f.calls():
+        if c.callee not in acc:
+            continue
+        n += 1
+        after = [e for e in c.block.elems[c.i + 1:] if e.cls == "CallExpr" or e.is_assign or e.is_incdec]
+        seen, work = set(), [x for x in c.block.succs if x is not None]
+        if any(e.cls == "ReturnStmt" for e in c.block.elems[c.i + 1:]):
+            work = []
+        while work:
+            nb = work.pop()
+            if nb in seen:
+                continue
+            seen.add(nb)
+            blk = f.blocks[nb]
+            after += [e for e in blk.elems if e.cls == "CallExpr" or e.is_assign or e.is_incdec]
+            if any(e.cls == "ReturnStmt" for e in blk.elems):
+                continue
+            work.extend(x for x in blk.succs if x is not None)
+        rep.check(not after, "G4-siblings", "SHA256_Transform: after %s() the function returns" % c.callee, c.where,
+                  "reachable after the accelerated transform: %s ... (the portable transform would absorb the same block again)" % [e.text[:30] for e in after[:3]],
+                  function=f.name, construct="exclusive:" + c.callee)
+    return n
+
+
+def g4_siblings(prog, rep):
+    """The three AES key-layer entry points dispatch on the same selector value, and a taken accelerated branch ends the function:
+    whatever the accelerated routine answers (a failed allocation included) is the answer, the portable code does not also run on
+    an object of the other layout."""
     # sibling agreement on the selector in crypto_aes.c
     u = prog.unit("crypto/crypto_aes.c")
     vals = {}
